@@ -469,7 +469,9 @@ package core
 //@   havoc
 //@   flag typeassert=panic
 //@   flag bounds=panic
-//@   requires s != nil
+//@   requires s != nil && ctx != nil
 //@   modifies ghost.rcalls, ghost.rcall_in, ghost.rcall_out, ghost.rcall_fn_ptr
+//@   loop 3 invariant forall(k, 0, rangeidx(), rv_valid(in[k]) || (k >= type_numin(ival(ft)) && !type_variadic(ival(ft))))
+//@   loop 3 invariant forall(k, rangeidx(), len(in), old(true) && (rv_valid(in[k]) || !rv_valid(in[k])))
 //@   loop 1 invariant 0 <= i && len(in) == n + 1 && forall(k, 0, i, args[k] != nil ==> rv_valid(in[k + 1]) && rv_src_t(in[k + 1]) == typeof(args[k]) && rv_src_v(in[k + 1]) == ival(args[k]))
 //@   loop 2 invariant 0 <= i && len(in) == n && forall(k, 0, i, args[k] != nil ==> rv_valid(in[k]) && rv_src_t(in[k]) == typeof(args[k]) && rv_src_v(in[k]) == ival(args[k]))
